@@ -418,69 +418,56 @@ def atoms_at_node(body, node, facts):
     return r
 
 
-class Census:
-    def __init__(self, facts, entries, stop_at_adapter=True, max_depth=9):
+class FnCensus:
+    """leaf effects of every top-level function of the crate (its closures flattened in) with the guard atoms that dominate
+    them inside that function"""
+
+    def __init__(self, facts):
         self.facts = facts
         self.cg = cg_of(facts)
-        self.instances = {}   # (entry name, leafkey) -> [ (frozenset(atoms), where) ]
-        self.max_depth = max_depth
-        for (ename, body) in entries:
-            self._walk(ename, body, frozenset(), (body.path,), 0)
+        self.fns = {}     # fn path -> {leafkey: [ (frozenset(atoms), where) ]}
+        self.known_preds = None
+        for b in facts.repo_bodies():
+            if b.kind == "closure":
+                continue
+            inst = {}
+            self._walk(b, b, frozenset(), (b.path,), inst)
+            self.fns[b.path] = inst
 
-    def _add(self, ename, key, atoms, where):
-        lst = self.instances.setdefault((ename, key), [])
+    @staticmethod
+    def _add(inst, key, atoms, where):
+        lst = inst.setdefault(key, [])
         for (a, w) in lst:
             if a == atoms:
                 return
         lst.append((atoms, where))
 
-    def _walk(self, ename, body, ctx, stack, depth):
+    def _walk(self, top, body, ctx, stack, inst):
         facts = self.facts
         for (blk, key) in leaves_of(body, facts):
-            self._add(ename, key, ctx | atoms_at(body, blk, facts), "%s (%s)" % (body.path, body.loc(body.blocks[blk].term.line)))
+            self._add(inst, key, ctx | atoms_at(body, blk, facts), body.loc(body.blocks[blk].term.line))
         if body.kind != "closure":
             for (blk, key) in returns_of(body):
-                self._add(ename, key, ctx | atoms_at(body, blk, facts), "%s (%s)" % (body.path, body.loc(body.blocks[blk].term.line)))
+                self._add(inst, key, ctx | atoms_at(body, blk, facts), body.loc(body.blocks[blk].term.line))
         for (h, node) in loop_exits(body):
-            at = atoms_at_node(body, node, facts)
-            self._add(ename, "loopexit", ctx | at, "%s (loop at %s)" % (body.path, body.loc(body.blocks[h].term.line)))
-        if depth >= self.max_depth:
-            return
+            self._add(inst, "loopexit", ctx | atoms_at_node(body, node, facts), body.loc(body.blocks[h].term.line))
         for s in self.cg.sites[body.path]:
-            if s.fanout:
-                continue
-            tg = [t for t in s.targets + s.closures if t.in_repo()]
-            if not tg:
-                continue
-            here = ctx | atoms_at(body, s.block, facts)
-            for t in tg:
-                if t.path in stack:
-                    continue
-                self._walk(ename, t, here, stack + (t.path,), depth + 1)
-
-
-def melda_entries(facts):
-    out = []
-    for b in facts.repo_bodies():
-        if b.kind != "closure" and b.impl_adt == "melda::Melda" and b.impl_trait is None and b.public:
-            out.append((b.name, b))
-    return sorted(out, key=lambda x: x[0])
-
-
-def adapter_entries(facts):
-    out = []
-    for im in facts.impls_of(ADAPTER_TRAIT):
-        for m in im["methods"]:
-            b = facts.body(m["path"])
-            if b is not None and b.in_repo() and m["name"] in ("read_object", "write_object", "list_objects"):
-                out.append(("%s::%s" % (_tyname(im.get("self_ty") or b.impl_self or b.path), m["name"]), b))
-    return sorted(out, key=lambda x: x[0])
+            here = None
+            if not s.fanout:
+                for t in s.targets:
+                    if t.in_repo() and t.kind != "closure":
+                        here = here if here is not None else ctx | atoms_at(body, s.block, facts)
+                        self._add(inst, "call:" + _short(t.path), here, body.loc(s.term.line))
+            for c in s.closures:
+                if c.in_repo() and c.kind == "closure" and c.path not in stack:
+                    here = here if here is not None else ctx | atoms_at(body, s.block, facts)
+                    self._walk(top, c, here, stack + (c.path,), inst)
 
 
 def census_of(facts):
     c = getattr(facts, "_census", None)
     if c is None:
-        c = Census(facts, melda_entries(facts))
+        c = FnCensus(facts)
         facts._census = c
     return c
 
@@ -503,86 +490,111 @@ def whitelisted(a):
         if n in SHAPE_TESTS:
             return True
     if a[0] == "ok":
-        # as_str() / as_array() ... is Some
         m = re.match(r"^(\w+::)?(\w+)\(", a[1])
         if m and m.group(2) in SHAPE_TESTS:
             return True
     return False
 
 
-def compare(census, table, entries_filter=None):
-    """yields (rule, entry, leafkey, detail, where)"""
-    cur = {}
-    for (e, k), lst in census.instances.items():
-        if entries_filter and e not in entries_filter:
-            continue
-        cur[(e, k)] = [(set(atom_str(a) for a in atoms if not is_opaque(a)),
-                        any(is_opaque(a) for a in atoms),
-                        set(atom_str(a) for a in atoms if whitelisted(a)), where) for (atoms, where) in lst]
-    tab = {}
-    for e, d in table.get("entries", {}).items():
-        if entries_filter and e not in entries_filter:
-            continue
+def known_predicates(table):
+    """names of crate functions that occur as guard predicates in the confirmed census"""
+    out = set()
+    for fn, d in table.get("fns", {}).items():
         for k, insts in d.items():
-            tab[(e, k)] = [set(i) for i in insts]
+            for i in insts:
+                for a in i:
+                    parts = a.split("|")
+                    if parts[0] == "call":
+                        out.add(parts[1])
+    return out
+
+
+def normalise(atoms, known, facts):
+    """atoms of one instance -> (set of atom strings, has_opaque).  A call to a crate function that the confirmed census does
+    not know as a predicate is opaque (a condition moved into a new helper is not understood, no alarm)"""
+    out = set()
+    opaque = False
+    for a in atoms:
+        if is_opaque(a):
+            opaque = True
+            continue
+        if a[0] == "call" and a[1] not in known and _is_crate_fn(a[1], facts):
+            opaque = True
+            continue
+        out.add(atom_str(a))
+    return out, opaque
+
+
+def _is_crate_fn(short, facts):
+    idx = getattr(facts, "_short_fn_index", None)
+    if idx is None:
+        idx = {_short(b.path) for b in facts.repo_bodies() if b.kind != "closure"}
+        facts._short_fn_index = idx
+    return short in idx
+
+
+def compare(census, table, facts, fn_filter=None):
+    """yields (rule, fn, leafkey, detail, where); fn-level, fail-open when the set of leaf kinds of a function changed"""
+    known = known_predicates(table)
     out = []
-    for (e, k), insts in sorted(cur.items()):
-        frozen = tab.get((e, k))
-        if frozen is None:
-            if e in table.get("entries", {}) and k.startswith("w:"):
-                # X4 only when the same field has no effect of any class in the table for this entry (class changes such as
-                # clear() -> assignment of an empty collection are re-spellings)
-                fld = k.split(":")[1]
-                if not any(kk.startswith("w:%s:" % fld) for (ee, kk) in tab if ee == e):
-                    out.append(("X4", e, k, "new-effect", insts[0][3]))
+    skipped = []
+    for fn, frozen in sorted(table.get("fns", {}).items()):
+        if fn_filter is not None and not fn_filter(fn):
             continue
-        for (atoms, opaque, wl, where) in insts:
-            best = None
-            for f in frozen:
-                extra = atoms - f - wl
-                if best is None or len(extra) < len(best):
-                    best = extra
-                if not extra:
-                    break
-            if best:
-                for a in sorted(best):
-                    out.append(("X1", e, k, "new-guard:" + a, where))
-    for (e, k), frozen in sorted(tab.items()):
-        insts = cur.get((e, k))
-        if insts is None:
-            if k.startswith("w:") and (e in {ee for (ee, _) in cur}):
-                fld = k.split(":")[1]
-                if not any(kk.startswith("w:%s:" % fld) for (ee, kk) in cur if ee == e):
-                    out.append(("X3", e, k, "lost-effect", ""))
+        cur = census.fns.get(fn)
+        if cur is None:
+            skipped.append((fn, "function not found (renamed / removed)"))
             continue
-        for f in frozen:
-            ok = False
-            best = None
-            for (atoms, opaque, wl, where) in insts:
-                missing = f - atoms
-                if not missing or opaque:
-                    ok = True
-                    break
-                if best is None or len(missing) < len(best[0]):
-                    best = (missing, where)
-            if not ok and best is not None:
-                for a in sorted(best[0]):
-                    out.append(("X2", e, k, "lost-guard:" + a, best[1]))
-    # de-duplicate
+        if set(cur.keys()) != set(frozen.keys()):
+            skipped.append((fn, "set of effect kinds changed: +%s -%s" % (sorted(set(cur) - set(frozen)), sorted(set(frozen) - set(cur)))))
+            continue
+        for k in sorted(frozen):
+            fins = [set(i) for i in frozen[k]]
+            cins = []
+            for (atoms, where) in cur[k]:
+                a, op = normalise(atoms, known, facts)
+                wl = {atom_str(x) for x in atoms if whitelisted(x)}
+                cins.append((a, op, wl, where))
+            for (a, op, wl, where) in cins:
+                best = None
+                for f in fins:
+                    extra = a - f - wl
+                    if best is None or len(extra) < len(best):
+                        best = extra
+                    if not extra:
+                        break
+                for x in sorted(best or ()):
+                    out.append(("X1", fn, k, "new-guard:" + x, where))
+            for f in fins:
+                ok = False
+                best = None
+                for (a, op, wl, where) in cins:
+                    missing = f - a
+                    if not missing or op:
+                        ok = True
+                        break
+                    if best is None or len(missing) < len(best[0]):
+                        best = (missing, where)
+                if not ok and best is not None:
+                    for x in sorted(best[0]):
+                        out.append(("X2", fn, k, "lost-guard:" + x, best[1]))
     seen = set()
     res = []
     for r in out:
-        kk = r[:4]
+        kk = (r[0], r[1], r[3])
         if kk not in seen:
             seen.add(kk)
             res.append(r)
-    return res
+    return res, skipped
 
 
 def dump_table(census):
-    ent = {}
-    for (e, k), lst in sorted(census.instances.items()):
-        d = ent.setdefault(e, {})
-        rows = sorted({tuple(sorted(atom_str(a) for a in atoms if not is_opaque(a))) for (atoms, _) in lst})
-        d[k] = [list(r) for r in rows]
-    return {"entries": ent}
+    fns = {}
+    for fn, inst in sorted(census.fns.items()):
+        d = {}
+        for k, lst in sorted(inst.items()):
+            rows = sorted({tuple(sorted(atom_str(a) for a in atoms if not is_opaque(a))) for (atoms, _) in lst})
+            d[k] = [list(r) for r in rows]
+        if d:
+            fns[fn] = d
+    return {"fns": fns}
